@@ -65,8 +65,8 @@ def run(ctx, rep):
     # H17: the supplied argument values reach the C++ entity: every converter rejects exactly what it cannot convert, strings are read whole (= C18 K10)
     rep.run(RH2.rule_guard_truth_tables, ctx, rep, "H17")
     rep.run(RH.rule_strings_by_evaluation, ctx, rep, "H21")
-    rep.run(RI.rule_preamble_by_evaluation, ctx, rep, "H22")
-    rep.run(RI.rule_registry_keeps_every_class, ctx, rep, "H23")
+    rep.run(RID.rule_preamble_by_evaluation, ctx, rep, "H22")
+    rep.run(RID.rule_registry_keeps_every_class, ctx, rep, "H23")
     rep.run(RM.rule_guard_builders_by_evaluation, ctx, rep, "H18")
     rep.run(RID.rule_routines_by_evaluation, ctx, rep, "H19")
     rep.run(RID.rule_property_accessors_by_evaluation, ctx, rep, "H20", parts=("sites", "routines"))
